@@ -177,6 +177,11 @@ impl Sys {
     }
 }
 
+/// indices of the public inputs that no constraint references ("context tags": part of the statement only)
+pub fn unreferenced_pis(sys: &Sys) -> Vec<usize> {
+    (0..sys.npi).filter(|i| !sys.cons.iter().any(|c| c.terms.iter().any(|t| t.vars.contains(&V::P(*i))))).collect()
+}
+
 pub fn fi(c: i64) -> F {
     if c >= 0 {
         F::from_canonical_u64(c as u64)
@@ -553,6 +558,8 @@ macro_rules! fam_dispatch {
             (3, 2) => $f::<3, 2>($($args),*),
             (5, 2) => $f::<5, 2>($($args),*),
             (8, 2) => $f::<8, 2>($($args),*),
+            (2, 3) => $f::<2, 3>($($args),*),
+            (3, 3) => $f::<3, 3>($($args),*),
             (c, p) => panic!("family has no instance with {c} columns and {p} public inputs"),
         }
     };
